@@ -55,7 +55,10 @@ func TestVerifC08RegisterDuringChange(t *testing.T) {
 			})
 		}
 		regDone, chgDone := make(chan string, 1), make(chan string, 1)
-		go func() { regDone <- dxGuard(rig.attach) }()
+		// (not rig.attach(): it also reads the harness model, which the other goroutine updates)
+		go func() {
+			regDone <- dxGuard(func() { rig.rib.RegisterWithOptions(rig.aro, rig.s.clientOptions()) })
+		}()
 		gated := false
 		select {
 		case <-reached:
@@ -110,6 +113,7 @@ func TestVerifC08RegisterDuringChange(t *testing.T) {
 		}
 		c.ClassIf(gated, "initial_dump_parked")
 		c.NonTrivialIf(gated)
+		rig.attached = true
 		for i := range pfxs {
 			rig.noteWipe(i, nil)
 			rig.wiped[i] = rig.wiped[i] || s.AddPathN > 0 // any rule-excluded selected path may have wiped its siblings (listed finding)
